@@ -11,7 +11,12 @@
 (*                    evidence; two transactions)                           *)
 (*   Initial = TRUE   block at the initial height (empty last commit)       *)
 (* The Go driver builds the same two scenes on real nodes and applies the   *)
-(* same mutation, by name, to the real proto block.                         *)
+(* same mutation, by name, to the real proto block.  A third real scene     *)
+(* ("changed") is the height-3 scene on a chain whose validator set changes *)
+(* exactly between heights 2 and 3 (validator 1: power 10 -> 40): the       *)
+(* specification is the same - the last commit is judged, and the median    *)
+(* time weighted, by the PREVIOUS set (S.lastVals) - so the same dump is     *)
+(* replayed there.                                                          *)
 (*                                                                         *)
 (* A mutation is <<name, rehash>>: rehash = "yes" recomputes the header's   *)
 (* content hash of the mutated part (DataHash / LastCommitHash /            *)
@@ -59,7 +64,7 @@ TxMuts     == {"txs.drop", "txs.add", "txs.swap", "txs.alter", "txs.garbage"}
 LcMetaMuts == {"lc.height-1", "lc.height+1", "lc.round+1", "lc.bid.hash", "lc.bid.phash", "lc.bid.ptotal"}
 LcSigMuts  == {"lc.sig1.absent", "lc.sig4.absent", "lc.sig1.nilflag", "lc.sig1.ts", "lc.sig1.addr-stranger",
                "lc.sig1.addr-validator", "lc.sig1.badsig", "lc.sig.swap12", "lc.sig1.nosig", "lc.sig1.flag0",
-               "lc.sigs.droplast", "lc.two-absent"}
+               "lc.sigs.droplast", "lc.two-absent", "lc.sig34.absent", "lc.sig34.absent-retimed"}
 LcMuts     == LcMetaMuts \cup {"lc.nil", "lc.sigs.extra"} \cup (IF Initial THEN {} ELSE LcSigMuts)
 EvMuts     == IF Initial THEN {"ev.add"} ELSE {"ev.drop", "ev.alter", "ev.add", "ev.dup", "ev.malformed"}
 
@@ -69,7 +74,7 @@ Singles == {<<n, "no">> : n \in Names} \cup {<<n, "yes">> : n \in {x \in Names :
 
 SetSig(b, k, cs) == [b EXCEPT !.lc.sigs[k] = cs]
 (* a mutation that finds nothing to act on (possible only in pairs, e.g. after the commit was removed) is a no-op *)
-NeedSigs(n) == CASE n \in {"lc.sig4.absent"} -> 4
+NeedSigs(n) == CASE n \in {"lc.sig4.absent", "lc.sig34.absent", "lc.sig34.absent-retimed"} -> 4
                  [] n \in {"lc.two-absent", "lc.sig.swap12"} -> 2
                  [] n \in LcSigMuts -> 1
                  [] OTHER -> 0
@@ -116,6 +121,13 @@ Apply1(b, n) ==
     [] n = "lc.sig1.absent"   -> SetSig(b, 1, AbsentCS)                  \* the earliest timestamp disappears
     [] n = "lc.sig4.absent"   -> SetSig(b, 4, AbsentCS)                  \* the latest one: median unchanged
     [] n = "lc.two-absent"    -> SetSig(SetSig(b, 1, AbsentCS), 2, AbsentCS)
+    \* half of the PREVIOUS set's power remains; in the driver's "changed" scene (validator 1's power raised from
+    \* 10 to 40 at this very height) the two remaining signers hold 50 of the CURRENT set's 70
+    [] n = "lc.sig34.absent"  -> SetSig(SetSig(b, 3, AbsentCS), 4, AbsentCS)
+    \* ... and the header time re-computed as the median of what is left, so that only the power test can refuse it
+    [] n = "lc.sig34.absent-retimed" ->
+         LET b2 == SetSig(SetSig(b, 3, AbsentCS), 4, AbsentCS)
+         IN [b2 EXCEPT !.h.time = IF b2.lc.present /\ S.lastVals # <<>> THEN MedianTime(b2.lc, S.lastVals) ELSE @]
     [] n = "lc.sig1.nilflag"  -> [b EXCEPT !.lc.sigs[1].flag = FlagNil]
     [] n = "lc.sig1.ts"       -> [b EXCEPT !.lc.sigs[1].ts = @ + 1]
     [] n = "lc.sig1.addr-stranger"  -> [b EXCEPT !.lc.sigs[1].addr = 9]
